@@ -19,7 +19,18 @@ func (p *watPrinter) printExport() error {
 				p.indent, e.Name, watPrinter_identOrIndex(e.GlobalIdx),
 			)
 		case token.FUNC:
-			// skip
+			// 内联导出的函数在 printFuncs 中输出
+			inline := false
+			for _, fn := range p.m.Funcs {
+				if fn.ExportName != "" && fn.ExportName == e.Name {
+					inline = true
+				}
+			}
+			if !inline {
+				fmt.Fprintf(p.w, `%s(export "%s" (func %s))`+"\n",
+					p.indent, e.Name, watPrinter_identOrIndex(e.FuncIdx),
+				)
+			}
 		case token.MEMORY:
 			fmt.Fprintf(p.w, `%s(export "%s" (memory %s))`+"\n",
 				p.indent, e.Name, watPrinter_identOrIndex(e.MemoryIdx),
